@@ -25,6 +25,37 @@ META = {
 GUARD_TOKENS = ("visited_rules", "active_group_refs", "visited", "seen", "in_progress", "recursion_guard")
 
 
+MEMBERSHIP_TESTS = {"contains", "contains_key", "any", "binary_search", "get", "position"}
+MEMBERSHIP_ADDS = {"push", "insert", "push_back", "push_front", "extend", "entry"}
+
+
+def visited_set_collections(fi):
+    """collections on which the function both tests membership and adds a member (the visited / in-progress set idiom): the
+    root expression of the receiver chain, e.g. `open` for `open.iter().any(..)` and `open.push(..)`"""
+    tests, adds = {}, {}
+
+    def root(n):
+        while True:
+            if n["k"] == "mcall" and n["m"] in ("iter", "iter_mut", "as_ref", "as_mut", "borrow", "borrow_mut", "as_slice", "keys", "values", "clone", "lock", "unwrap"):
+                n = n["r"]
+            elif n["k"] in ("ref", "paren", "un"):
+                n = n["e"]
+            else:
+                return n
+    for n in vf.walk(fi.node):
+        if n["k"] != "mcall":
+            continue
+        r = root(n["r"])
+        if r["k"] not in ("path", "field"):
+            continue
+        base = vf.src(r)
+        if n["m"] in MEMBERSHIP_TESTS:
+            tests.setdefault(base, n["l"])
+        if n["m"] in MEMBERSHIP_ADDS:
+            adds.setdefault(base, n["l"])
+    return sorted(set(tests) & set(adds))
+
+
 def fn_text_tokens(fi):
     toks = set()
     for n in vf.walk(fi.node):
@@ -108,11 +139,12 @@ def lookup_tainted_calls(fi, lookup_names, targets):
 def r_recursion(ctx):
     rid = "C05.recursion"
     ctx.rule(rid, "every cycle of the crate-local call graph (free functions and self methods, all cfg) that contains a function "
-                  "performing a rule lookup (iterates `.rules` or calls a lookup helper) also contains a function that consults a "
-                  "visited/active set; cycles without lookups are structural descents over a finite tree", floor=8)
+                  "performing a rule lookup (iterates `.rules` or calls a lookup helper) also contains a function that keeps a "
+                  "visited / in-progress set — it tests membership in a collection and adds to the same collection (whatever it is "
+                  "called); cycles without lookups are structural descents over a finite tree", floor=8)
     g = cgmod.CG(ctx.facts)
     direct = {id(fi) for fi in g.fns if has_lookup(fi)}
-    guarded = {id(fi) for fi in g.fns if fn_text_tokens(fi) & set(GUARD_TOKENS)}
+    guarded = {id(fi) for fi in g.fns if visited_set_collections(fi)}
     for comp in g.sccs():
         comp_set = set(comp)
         # lookup-mediated members: own lookup or a strong call to a lookup function outside the component
